@@ -14,6 +14,7 @@ use verif_harness::{Rng, arg};
 
 include!("colls_extras.inc.rs");
 include!("colls_parts.inc.rs");
+include!("colls_cap.inc.rs");
 
 thread_local! {
     static DROPS: RefCell<Vec<u32>> = const { RefCell::new(Vec::new()) };
@@ -752,6 +753,12 @@ fn main() {
     if !input_file.is_empty() {
         for l in std::fs::read_to_string(&input_file).expect("cannot read --input").lines() {
             if let Some((kind, input, op, ans, dp)) = parse_case(l) { run_case(&mut w, &kind, &input, &op, &ans, &dp); }
+            else if l.starts_with("V ") {
+                if let Some((notes, vline)) = capx::cap_replay(l) {
+                    writeln!(w, "{vline}").unwrap();
+                    for m in notes { writeln!(w, "X colls cap history :: {m}").unwrap(); }
+                }
+            }
             else if let Some(rest) = l.strip_prefix("C bx ") {
                 // dividing / merging owned slices: re-run the recorded operation on as many elements
                 let fields: Vec<&str> = rest.split(';').collect();
@@ -780,6 +787,11 @@ fn main() {
         }
         if case % 10 == 7 {
             for m in parts_probe(&mut r) { writeln!(w, "X colls parts probe :: {m}").unwrap(); }
+        }
+        if case % 10 == 2 {
+            let (notes, vline) = capx::cap_history(&mut r, &mut |l: &str| { writeln!(w, "{l}").unwrap(); w.flush().unwrap(); });
+            writeln!(w, "{vline}").unwrap();
+            for m in notes { writeln!(w, "X colls cap history :: {m}").unwrap(); }
         }
         if case % 5 == 4 {
             let (notes, clines) = partsx::parts_lines(&mut r);
